@@ -128,12 +128,30 @@ func (c17Sim) Gen(prop, tier string, r *rand.Rand) interface{} {
 		for i := 0; i < int(between(r, 0, 6)); i++ {
 			c.Raw = append(c.Raw, rawChoices[r.IntN(len(rawChoices))])
 		}
+		if chance(r, 0.5) {
+			// requests that differ only in the clock value they carry
+			base := c.Clock0
+			file := pick(r, "top.wsp", "grp/it0/a.wsp")
+			ep := pick(r, "view?file="+file, "sum?item=grp.it0&pattern=*.wsp")
+			for i := 0; i < int(between(r, 2, 4)); i++ {
+				nowi := base + int64(i)*between(r, 1, l.Archs[0].S+2)
+				c.Raw = append(c.Raw, fmt.Sprintf("/%s&retention=-1&from=%s&until=%s&now=%s", ep,
+					tsFlag(base-l.Archs[0].R()-3), tsFlag(base+60), tsFlag(nowi)))
+			}
+		}
+		if chance(r, 0.4) {
+			// several sums over the same item at once
+			for i := 0; i < 2; i++ {
+				cm := Cmd{Kind: "sum", Item: "grp/it0", Src: "*.wsp", Archive: -1, SrcRemote: chance(r, 0.7)}
+				c.Cmds = append(c.Cmds, cm)
+			}
+		}
 	}
 	return c
 }
 
 func validC17(c *C17Case) bool {
-	if !c.Layout.Valid() || c.Clock0 < 946684800 || c.Clock0 > math.MaxUint32-3*400*86400 || len(c.Files) > 30 || len(c.Cmds) > 10 || len(c.Queries) > 10 {
+	if !c.Layout.Valid() || c.Clock0 < 946684800 || c.Clock0 > math.MaxUint32-3*400*86400 || len(c.Files) > 30 || len(c.Cmds) > 12 || len(c.Queries) > 10 {
 		return false
 	}
 	if c.PreemptP < 0 || c.PreemptP > 1 {
@@ -156,7 +174,7 @@ func validC17(c *C17Case) bool {
 			return false
 		}
 	}
-	if len(c.Raw) > 12 {
+	if len(c.Raw) > 16 {
 		return false
 	}
 	for _, q := range c.Raw {
@@ -320,7 +338,7 @@ func c17Finish(e *Env, s *Sched, c *C17Case) {
 		e.Violate("C17.panic", "%s", firstLine(s.Panics[0]))
 	}
 	if s.Deadlock && !e.Failed() {
-		e.Skip("deadlock")
+		e.Violate("C17.equal-sequential", "run concurrently the requests never finish (every goroutine parked or waiting, nothing runnable for a simulated hour), each of them finishes when run alone;%s", s.DeadlockInfo)
 	}
 }
 
